@@ -840,6 +840,12 @@ func vServe[T any](ch chan T, f func(T)) {}
 func vReply[T any](ch chan T, v T)       {}
 func vGoMode(name, mode string)          {}
 func vRunTasks()                         {}
+func vLocksHeld() bool                   { return false }
+func vJoin(f func()) {
+	done := make(chan struct{})
+	go func() { defer close(done); f() }()
+	<-done
+}
 
 func verifReplayMain() {
 	vLoad()
@@ -957,6 +963,16 @@ func (r *Run) nativeRun(pkgRelDir, harness, modelPath string) (string, error) {
 	}
 	if pkgName == "" {
 		return "", fmt.Errorf("no harness files for %s", pkgRelDir)
+	}
+	i := 0
+	for rel, data := range instrumented {
+		if filepath.Dir(rel) != pkgRelDir {
+			continue
+		}
+		i++
+		f := filepath.Join(tmp, fmt.Sprintf("instr%d.go", i))
+		os.WriteFile(f, data, 0o644)
+		ov[filepath.Join(r.Repo, rel)] = f
 	}
 	rt := filepath.Join(tmp, "rt.go")
 	os.WriteFile(rt, []byte(rtSource(pkgName)), 0o644)
